@@ -53,6 +53,8 @@ pub enum Step {
     Seal(Option<(i8, u8)>),
     Restart,
     Empty(u8),
+    /// jump to just below a boundary height (fabricated state through the public from_block)
+    Teleport(u8),
 }
 
 #[derive(Clone, Debug, Serialize, Deserialize)]
@@ -82,8 +84,8 @@ pub struct OutPlan {
 pub struct Profile {
     /// weights for [Custom02, Custom08, Testnet, Mainnet, Custom03..07]
     pub net_w: [u32; 9],
-    /// weights for [Normal, Faucet, Swap, Deposit, Withdraw, Stake, NewToken, DoscMint]
-    pub kind_w: [u32; 8],
+    /// weights for [Normal, Faucet, Swap, Deposit, Withdraw, Stake, NewToken, DoscMint, ReplayedFaucet]
+    pub kind_w: [u32; 9],
     /// probability (x/256) that a transaction is adversarially mutated
     pub p_mut: u32,
     pub max_steps: usize,
@@ -96,13 +98,19 @@ pub struct Profile {
     pub mel_genesis: bool,
     /// avoid shapes that trigger known findings (counted by the monitors)
     pub mainnet_like_legacy: bool,
+    /// after a Restart step the driver continues on the restarted lineage (false: on the original; C08 shadows)
+    pub restart_replaces: bool,
+    /// weight (x/256 of Step draws) of teleports; 0 = never
+    pub p_teleport: u32,
+    /// fast-forward (with empty blocks) before the first step: classes by cfg.val
+    pub warp: bool,
 }
 
 impl Profile {
     pub fn general() -> Profile {
         Profile {
             net_w: [40, 25, 20, 15, 0, 0, 0, 0, 0],
-            kind_w: [40, 10, 14, 10, 8, 5, 8, 0],
+            kind_w: [40, 10, 14, 10, 8, 5, 8, 0, 2],
             p_mut: 40,
             max_steps: 14,
             max_txs: 6,
@@ -110,6 +118,9 @@ impl Profile {
             hostile: false,
             mel_genesis: true,
             mainnet_like_legacy: true,
+            restart_replaces: true,
+            p_teleport: 0,
+            warp: false,
         }
     }
 }
@@ -170,6 +181,7 @@ pub fn arb_step(max_txs: usize) -> impl Strategy<Value = Step> {
         6 => proptest::option::weighted(0.5, (prop_oneof![Just(0i8), Just(127), Just(-128), any::<i8>()], any::<u8>())).prop_map(Step::Seal),
         1 => Just(Step::Restart),
         1 => (0u8..4).prop_map(Step::Empty),
+        1 => any::<u8>().prop_map(Step::Teleport),
     ]
 }
 
@@ -725,6 +737,14 @@ impl<'a> Builder<'a> {
         Some(Built { tx, inputs: vec![], valid, spelling: None, pool: None })
     }
 
+    fn build_refaucet(&mut self, tp: &TxPlan) -> Option<Built> {
+        if self.w.faucets_seen.is_empty() {
+            return None;
+        }
+        let tx = self.w.faucets_seen[sel(tp.pool, self.w.faucets_seen.len())].clone();
+        Some(Built { tx, inputs: vec![], valid: false, spelling: None, pool: None })
+    }
+
     fn choose_pool(&self, tp: &TxPlan, need_both: bool) -> Option<PoolKey> {
         // candidate pools: those for which the wallet holds a side
         let have: Vec<Denom> = self.avail.iter().map(|c| c.cdh.coin_data.denom).collect();
@@ -785,6 +805,10 @@ impl<'a> Builder<'a> {
     }
 
     fn build_deposit(&mut self, tp: &TxPlan) -> Option<Built> {
+        if self.p.mainnet_like_legacy && refstf::legacy_net(self.w.net) && self.height < 978_392 {
+            // legacy deposit regime (known finding KF-L3): the second coin is "removed" under a wrong id
+            return None;
+        }
         let k = self.choose_pool(tp, true)?;
         let inputs = pick_inputs(&tp.ins[..tp.ins.len().min(1)], &mut self.avail, &[k.left(), k.right()]);
         let totals = Self::totals(&inputs);
@@ -1064,9 +1088,10 @@ impl<'a> Builder<'a> {
             4 => self.build_withdraw(tp),
             5 => self.build_stake(tp),
             6 => self.build_normal(tp, true),
+            8 => self.build_refaucet(tp),
             _ => None,
         };
-        let kind_name = ["normal", "faucet", "swap", "deposit", "withdraw", "stake", "new-token", "doscmint"][kind];
+        let kind_name = ["normal", "faucet", "swap", "deposit", "withdraw", "stake", "new-token", "doscmint", "replayed-faucet"][kind];
         let (mut b, kind_name) = match built {
             Some(b) => (b, kind_name),
             None => match self.build_normal(tp, false) {
@@ -1129,6 +1154,7 @@ pub fn has_dependency(txs: &[Transaction]) -> bool {
 // observation points
 
 pub struct BatchObs<'a> {
+    pub pre_state: &'a crate::world::Unsealed,
     pub pre_view: &'a View,
     pub pre: &'a Snap,
     pub txs: &'a [Transaction],
@@ -1151,6 +1177,11 @@ pub struct SealObs<'a> {
     pub trace: &'a SealTrace,
     /// true when this block was sealed right after a restart / was empty etc.
     pub txs_in_block: usize,
+    /// the sealed state this block extends (None for the first block after genesis)
+    pub parent: Option<&'a Sealed>,
+    /// header().fee_pool of the same block sealed without a proposer action (only computed when an action was given)
+    pub noaction_fee_pool: Option<u128>,
+    pub pre_state: &'a crate::world::Unsealed,
 }
 
 #[allow(unused_variables)]
@@ -1192,6 +1223,25 @@ pub fn run_plan(plan: &Plan, profile: &Profile, mon: &mut dyn Monitor, st: &mut 
     let mut snap = w.snap();
     mon.on_start(&w, st)?;
     let mut txs_in_block = 0usize;
+    if profile.warp && w.net == NetID::Testnet {
+        // fast-forward with empty blocks to just below the testnet activation height
+        let target = match plan.cfg.val % 4 {
+            0 => 0,
+            1 => 496,
+            2 => 498,
+            _ => 499,
+        };
+        for _ in 0..target {
+            match w.seal(None) {
+                Outcome::Ok(_) => {}
+                _ => return Ok(()),
+            }
+        }
+        if target > 0 {
+            st.class("warped-to-activation");
+            snap = w.snap();
+        }
+    }
     for step in plan.steps.iter() {
         match step {
             Step::Batch(tps, order) => {
@@ -1210,7 +1260,11 @@ pub fn run_plan(plan: &Plan, profile: &Profile, mon: &mut dyn Monitor, st: &mut 
                 shuffle(&mut metas, *order);
                 for tx in txs.iter() {
                     w.reg.tx(tx);
+                    if tx.kind == TxKind::Faucet && !w.faucets_seen.contains(tx) && w.faucets_seen.len() < 16 {
+                        w.faucets_seen.push(tx.clone());
+                    }
                 }
+                let pre_state = w.cur.clone();
                 let pre_view = w.view();
                 let pre = decode_view(&pre_view, &w.reg);
                 let (verdict, ref_post) = {
@@ -1251,7 +1305,6 @@ pub fn run_plan(plan: &Plan, profile: &Profile, mon: &mut dyn Monitor, st: &mut 
                                 let e = w.issued.entry(o.denom).or_insert(0);
                                 *e = e.saturating_add(o.value.0);
                             }
-                            w.faucets_seen.push(tx.clone());
                         }
                         for o in tx.outputs.iter() {
                             if o.denom == Denom::NewCustom {
@@ -1281,6 +1334,7 @@ pub fn run_plan(plan: &Plan, profile: &Profile, mon: &mut dyn Monitor, st: &mut 
                     mon.on_panic(&w, "apply_tx_batch", p, st)?;
                 }
                 let ob = BatchObs {
+                    pre_state: &pre_state,
                     pre_view: &pre_view,
                     pre: &pre,
                     txs: &txs,
@@ -1313,6 +1367,18 @@ pub fn run_plan(plan: &Plan, profile: &Profile, mon: &mut dyn Monitor, st: &mut 
                     break;
                 }
             }
+            Step::Teleport(c) => {
+                if profile.p_teleport == 0 || txs_in_block > 0 {
+                    continue;
+                }
+                if let Some(target) = teleport_target(w.net, snap.height, *c) {
+                    if !teleport(&mut w, target, st) {
+                        break;
+                    }
+                    snap = w.snap();
+                    st.class("teleported");
+                }
+            }
             Step::Restart => {
                 if txs_in_block > 0 {
                     // a node restarts from a sealed block; pending transactions of an open block are not persisted
@@ -1330,9 +1396,11 @@ pub fn run_plan(plan: &Plan, profile: &Profile, mon: &mut dyn Monitor, st: &mut 
                     match r {
                         Ok((r, n)) => {
                             mon.on_restart(&w, &s, &r, st)?;
-                            w.cur = n;
-                            w.last_sealed = Some(r);
-                            snap = w.snap();
+                            if profile.restart_replaces {
+                                w.cur = n;
+                                w.last_sealed = Some(r);
+                                snap = w.snap();
+                            }
                         }
                         Err(p) => {
                             mon.on_panic(&w, "restart", &p, st)?;
@@ -1353,6 +1421,15 @@ fn do_seal(w: &mut World, snap: &mut Snap, action: Option<ProposerAction>, mon: 
         w.reg.covhash(a.reward_dest);
     }
     let pre = decode_view(&w.view(), &w.reg);
+    let pre_state = w.cur.clone();
+    let parent = w.last_sealed.clone();
+    let noaction_fee_pool = if action.is_some() {
+        let c = w.cur.clone();
+        let pool = &w.pool;
+        crate::util::catch(|| pool.install(|| c.seal(None).header().fee_pool.0)).ok()
+    } else {
+        None
+    };
     let (ref_post, trace) = refstf::seal(&pre, action);
     if trace_on() {
         eprintln!("[h{}] seal action={:?} pools before: {:?}", h, action, pre.pools);
@@ -1385,7 +1462,18 @@ fn do_seal(w: &mut World, snap: &mut Snap, action: Option<ProposerAction>, mon: 
                     }
                 }
             }
-            let ob = SealObs { pre: &pre, action, sealed: &sealed, post: &post, ref_post: &ref_post, trace: &trace, txs_in_block: *txs_in_block };
+            let ob = SealObs {
+                pre: &pre,
+                action,
+                sealed: &sealed,
+                post: &post,
+                ref_post: &ref_post,
+                trace: &trace,
+                txs_in_block: *txs_in_block,
+                parent: parent.as_ref(),
+                noaction_fee_pool,
+                pre_state: &pre_state,
+            };
             *txs_in_block = 0;
             mon.on_seal(w, &ob, st)?;
             *snap = w.snap();
@@ -1396,5 +1484,81 @@ fn do_seal(w: &mut World, snap: &mut Snap, action: Option<ProposerAction>, mon: 
             Ok(false)
         }
         Outcome::Rejected(_) => Ok(false),
+    }
+}
+
+/// Boundary heights worth visiting; always lands one block below the boundary and never jumps across
+/// the one-off TIP-906 initialisation (830 000 on mainnet, 500 on testnet).
+pub fn teleport_target(net: NetID, cur: u64, c: u8) -> Option<u64> {
+    let list: &[u64] = match net {
+        NetID::Mainnet => &[42_699, 179_999, 199_999, 499_999, 829_999, 899_999, 949_999, 978_391, 1_047_999, 1_199_999, 1_949_999],
+        NetID::Testnet => &[499, 199_999, 399_999, 499_999, 899_999, 978_391, 1_199_999],
+        _ => &[199_999, 399_999, 599_999, 949_999, 1_949_999],
+    };
+    let mut t = list[c as usize % list.len()];
+    let barrier = match net {
+        NetID::Mainnet => Some(829_999u64),
+        NetID::Testnet => Some(499u64),
+        _ => None,
+    };
+    if let Some(b) = barrier {
+        if cur < b && t > b {
+            t = b;
+        }
+    }
+    // land so that the *next* unsealed block has height t; need strictly forward and room for the synthetic parent
+    if t > cur + 1 {
+        Some(t)
+    } else {
+        // the next boundary above the current height
+        list.iter().copied().find(|x| *x > cur + 1).filter(|x| barrier.map_or(true, |b| !(cur < b && *x > b)))
+    }
+}
+
+/// Re-bases the last sealed state at height `target - 1` so that the next block to be built has height `target`.
+pub fn teleport(w: &mut World, target: u64, st: &mut Stats) -> bool {
+    use melstf::SmtMapping;
+    let s = match w.last_sealed.clone() {
+        Some(s) => s,
+        None => {
+            // need one sealed block first
+            match w.seal(None) {
+                Outcome::Ok(s) => s,
+                _ => return false,
+            }
+        }
+    };
+    let new_h = target - 1;
+    if new_h <= s.header().height.0 + 1 {
+        return true;
+    }
+    let db = w.db.clone();
+    let r = crate::util::catch(|| {
+        let blk = s.to_block();
+        let mut hist: SmtMapping<novasmt::InMemoryCas, BlockHeight, melstructs::Header> = SmtMapping::new(s.raw_history_smt());
+        let mut fake_prev = blk.header;
+        fake_prev.height = BlockHeight(new_h - 1);
+        hist.insert(BlockHeight(new_h - 1), fake_prev);
+        let mut header = blk.header;
+        header.height = BlockHeight(new_h);
+        header.history_hash = hist.root_hash();
+        header.previous = fake_prev.hash();
+        let blk2 = melstructs::Block { header, transactions: blk.transactions.clone(), proposer_action: blk.proposer_action };
+        let r = Sealed::from_block(&blk2, &s.raw_stakes(), &db);
+        let hd = r.header();
+        let n = r.next_unsealed();
+        (r, hd, n, fake_prev)
+    });
+    match r {
+        Ok((r, hd, n, fake_prev)) => {
+            w.headers.insert(new_h - 1, fake_prev);
+            w.headers.insert(new_h, hd);
+            w.last_sealed = Some(r);
+            w.cur = n;
+            // coins keep their creation heights; refresh nothing else
+            let _ = st;
+            true
+        }
+        Err(_) => false,
     }
 }
